@@ -184,6 +184,76 @@ def run_vector(path, kind, faulty, probe):
     return tr, exn, free, closed
 
 
+def run_ctor(path, exists, overwrite, readonly):
+    """Construct a UkvCollectionBackend on `path` and record, from outside, the order of: the inter-process write lock
+    being acquired / released, every look whether the file exists, and every creation (open in mode x / w) of the
+    library file.  Returns the event list."""
+    import pathlib
+    import fasteners
+    import molli.storage.backends as B
+    import molli.storage.ukvfile as UF
+    if os.path.exists(path):
+        os.remove(path)
+    if exists:
+        UF.UKVFile(path, "x").close()
+    ev = []
+    L = fasteners.InterProcessReaderWriterLock
+    real = os.path.realpath(path)
+    saved = []
+
+    def patch(obj, name, fn):
+        saved.append((obj, name, obj.__dict__[name] if name in obj.__dict__ else None, getattr(obj, name)))
+        setattr(obj, name, fn)
+    o_acq, o_rel = L.acquire_write_lock, L.release_write_lock
+
+    def acq(self, *a, **k):
+        r = o_acq(self, *a, **k)
+        if r:
+            ev.append("acquire")
+        return r
+
+    def rel(self, *a, **k):
+        ev.append("release")
+        return o_rel(self, *a, **k)
+    patch(L, "acquire_write_lock", acq); patch(L, "release_write_lock", rel)
+    for nm in ("is_file", "exists"):
+        orig = getattr(pathlib.Path, nm)
+
+        def look(self, *a, _o=orig, **k):
+            if os.path.realpath(str(self)) == real:
+                ev.append("exists")
+            return _o(self, *a, **k)
+        patch(pathlib.Path, nm, look)
+    for nm in ("isfile", "exists"):
+        orig = getattr(os.path, nm)
+
+        def look2(p_, *a, _o=orig, **k):
+            try:
+                if os.path.realpath(os.fspath(p_)) == real:
+                    ev.append("exists")
+            except TypeError:
+                pass
+            return _o(p_, *a, **k)
+        patch(os.path, nm, look2)
+    o_init = UF.UKVFile.__init__
+
+    def init(self, path_, *a, **k):
+        mode = k.get("mode", a[0] if a else "r")
+        if mode in ("x", "w") and os.path.realpath(os.fspath(path_)) == real:
+            ev.append("create")
+        return o_init(self, path_, *a, **k)
+    patch(UF.UKVFile, "__init__", init)
+    try:
+        B.UkvCollectionBackend(path, overwrite=overwrite, readonly=readonly)
+    finally:
+        for obj, name, own, val in reversed(saved):
+            if own is None and name in obj.__dict__ and obj is not os.path:
+                delattr(obj, name)
+            else:
+                setattr(obj, name, own if own is not None else val)
+    return [e for e in ev]
+
+
 def gen(ctx):
     """Regenerates Gen/SessionSkel.v and Gen/SessionFaults.v; returns (rows, refusal or None)."""
     import molli  # noqa
@@ -223,5 +293,17 @@ def gen(ctx):
                   "Definition fault_row := (list string * (trace * bool) * bool * bool)%type.\n")
     for kind in ("writing", "reading"):
         tab += f"Definition {kind}_rows : list fault_row := [\n  " + ";\n  ".join(row(r) for r in rows[kind]) + "\n].\n"
+    # the constructor's critical section: every configuration (file exists?, overwrite?, readonly?)
+    crows = []
+    cpath = os.path.join(ctx.sub("c04"), "ctor.ukv")
+    for ex in (False, True):
+        for ov in (False, True):
+            for ro in (False, True):
+                crows.append((ex, ov, ro, run_ctor(cpath, ex, ov, ro)))
+    tab += ("(* UkvCollectionBackend(path, overwrite, readonly) observed from outside: (file existed, overwrite, readonly,\n"
+            "   order of: write lock acquired / released, looks whether the file exists, creations (open in mode x or w)) *)\n"
+            "Definition ctor_rows : list (bool * bool * bool * list string) := [\n  "
+            + ";\n  ".join(f"({cq_bool(ex)}, {cq_bool(ov)}, {cq_bool(ro)}, {cq_list(cq_str(e) for e in evs)})" for ex, ov, ro, evs in crows) + "\n].\n")
     vlib.write_if_changed(os.path.join(vlib.COQ, "Gen", "SessionFaults.v"), tab)
+    rows["ctor"] = crows
     return rows, refusal
